@@ -586,6 +586,12 @@ func (c *Client) submitPersisted(packet net.Buffers, out outbound) (exchange <-c
 		out.seqSem <- seq // unlock with updated
 	}()
 
+	// Close and Disconnect halt the context first thing. The sequence
+	// lock remains available until ReadSlices confirms with ErrClosed.
+	if c.ctx.Err() != nil {
+		return nil, ErrClosed
+	}
+
 	hasBacklog := seq.submitN < seq.acceptN
 
 	// persist
